@@ -9,7 +9,7 @@ from libertem_blobfinder.base import masks
 PROP = "C02"
 LEAN_MODULE = "BlobfinderModel.Properties.C02"
 GEN_FILES = ["Eval"]
-FRAGMENTS = ["upsampling", "correlation_fft"]
+FRAGMENTS = ["upsampling", "correlation_fft", "log_scale", "kernels", "evaluate"]
 DRIVER = "drvcorr"
 RULE = ("correspondence: candidate grid of the upsampling (region size, dftshift -> offsets) for factors 2..50 vs the "
         "offsets the real refine_center_upsampling can return for a single-frequency spectrum; oracle: (a) linearly "
@@ -202,6 +202,15 @@ def search(ctx, boost=1, focus=()):
             room = min(room, pos[0] - c - 2, pos[1] - c - 2, shape[0] - c - 2 - pos[0], shape[1] - c - 2 - pos[1])
             q["stack"] = [[0.0, 0.0]] + [[float(rng.uniform(-room, room)), float(rng.uniform(-room, room))] for _ in range(2)] \
                 if room > 0 else [[0.0, 0.0]] * 2
+            if (k // 4) % 4 == 3 and cap >= 3 and "start_full" not in q and all(
+                    c <= int(np.round(pos[i_])) <= shape[i_] - c for i_ in range(2)):
+                # sample drift: the disk moves by whole pixels between the frames of the stack (2 .. cap - 1 px), the start position is
+                # the first frame's; every frame's disk stays within the capture range
+                q["start"] = [int(np.round(pos[0])), int(np.round(pos[1]))]
+                mv = min(cap - 1, 4)
+                q["stack"] = [[0.0, 0.0]] + [[float(rng.integers(-mv, mv + 1)) + float(rng.uniform(-0.3, 0.3)),
+                                              float(rng.integers(-mv, mv + 1)) + float(rng.uniform(-0.3, 0.3))] for _ in range(3)]
+                ctx.count("drifting_stacks")
             ctx.count("stacks")
             if (k // 8) % 2 == 1 and q["contrast"] >= 4:
                 q["wide"] = [float(rng.choice([2.0 ** 26, 2.0 ** 30, 2.0 ** 31 - 4096])), ("float64", "int32", "int64", "float64")[(k // 16) % 4]]
